@@ -41,13 +41,13 @@ CHECKS = {
     "C20": dict(
         engine="E3-exnflow",
         technique="Coq proof: loader = filter + stable insertion sort (membership iff, sortedness, failing candidate removable, stability) and, over loop bodies REGENERATED from /repo/src, 'every element attempted' for each of the nine plugin loops under Exception-class faults + in-Coq correspondence with the real load_plugins + differential fault runs",
-        text="6 Coq theorems: exactly the candidates that import, construct and report active are loaded, sorted by declared "
+        text="7 Coq theorems: exactly the candidates that import, construct and report active are loaded, sorted by declared "
              "order (equal orders keep input order); a candidate that fails affects no other; for each of the nine loops over "
              "plugins / callbacks / results / listeners (bodies regenerated from the source on every run) every execution over "
              "n elements, under any Exception-class failures of the callbacks, attempts all n and reaches the statements after "
              "the loop. Tied to the code by generated candidate sets through the real load_plugins (compared inside Coq) and by "
              "span / metric / decorator / logger / resource-provider plugins failing at random through the real handler and "
-             "Deep.start.",
+             "Deep.start. Tie T2: SpanActionContext.can_trigger is translated from source on every run (coq/gen/PSpans.v): C20_the_code_span_needs_a_processor.",
         note="Trusted: Coq kernel+VM; translator and whitelist as for C01; a plugin fails by raising an Exception subclass.",
         design="5-C20"),
     "C09": dict(
@@ -298,9 +298,9 @@ def main():
                  serves_properties=["C01", "C14", "C20"], kind_free_text="exception-flow language with verified may-escape / return-path / loop analyses; skeletons regenerated from the Python source by a fail-closed ast translator on every run; fault injection"),
             dict(name="E6-wire", path="coq/theories/Wire.v coq/theories/WireProofs.v coq/gen/WireMap.v harness/translate/wiremap.py harness/props/c08.py",
                  serves_properties=["C08"], kind_free_text="records as finite maps, table-driven conversion, losslessness law; tables regenerated from the converter functions; serialise/parse oracle"),
-            dict(name="E7-translated-functions", path="harness/translate/pure.py coq/theories/PureSupport.v coq/gen/PLimits.v coq/gen/PMatch.v coq/gen/PCollect.v coq/gen/PRender.v coq/gen/PTruth.v coq/gen/PGate.v coq/gen/PTable.v coq/gen/PFrames.v coq/gen/PStore.v coq/gen/PService.v coq/gen/PRegistry.v coq/gen/PCallbacks.v coq/gen/PMetrics.v coq/gen/PHooks.v coq/theories/TieLimits.v coq/theories/TieMatch.v coq/theories/TieCollect.v coq/theories/TieRender.v coq/theories/TieTruth.v coq/theories/TieGate.v coq/theories/TieHit.v coq/theories/TieTable.v coq/theories/TieFrames.v coq/theories/TieStore.v coq/theories/TieService.v coq/theories/TieRegistry.v coq/theories/TieCallbacks.v coq/theories/TieMetrics.v coq/theories/TieHooks.v tools/mutate_pure.py",
-                 serves_properties=["C02", "C03", "C04", "C05", "C10", "C11", "C12", "C13", "C14", "C15", "C17", "C18", "C19"],
-                 kind_free_text="45 functions of the agent translated statement by statement into Gallina on every run by a fail-closed Python-ast translator and proved equal to the functions of the hand-written models; property theorems stated over the translated code"),
+            dict(name="E7-translated-functions", path="harness/translate/pure.py coq/theories/PureSupport.v coq/gen/PLimits.v coq/gen/PMatch.v coq/gen/PCollect.v coq/gen/PRender.v coq/gen/PTruth.v coq/gen/PGate.v coq/gen/PTable.v coq/gen/PFrames.v coq/gen/PStore.v coq/gen/PService.v coq/gen/PRegistry.v coq/gen/PCallbacks.v coq/gen/PMetrics.v coq/gen/PHooks.v coq/gen/PSpans.v coq/theories/TieSpans.v coq/theories/TieLimits.v coq/theories/TieMatch.v coq/theories/TieCollect.v coq/theories/TieRender.v coq/theories/TieTruth.v coq/theories/TieGate.v coq/theories/TieHit.v coq/theories/TieTable.v coq/theories/TieFrames.v coq/theories/TieStore.v coq/theories/TieService.v coq/theories/TieRegistry.v coq/theories/TieCallbacks.v coq/theories/TieMetrics.v coq/theories/TieHooks.v tools/mutate_pure.py",
+                 serves_properties=["C02", "C03", "C04", "C05", "C10", "C11", "C12", "C13", "C14", "C15", "C17", "C18", "C19", "C20"],
+                 kind_free_text="46 functions of the agent translated statement by statement into Gallina on every run by a fail-closed Python-ast translator and proved equal to the functions of the hand-written models; property theorems stated over the translated code"),
             dict(name="E4-stores", path="coq/theories/Attrs.v coq/theories/AttrsProofs.v coq/theories/Config.v harness/props/c18.py harness/props/c19.py",
                  serves_properties=["C18", "C19"], kind_free_text="Gallina models of the attribute store, resources, configuration resolution; proofs; in-Coq correspondence"),
         ],
